@@ -612,7 +612,8 @@ def no_shared_class_state(ctx, rule, prefixes, floor, why):
 def no_aliased_containers(ctx, rule, prefixes, floor, why):
     """Distinct stores get distinct containers: `a[k1] = a[k2] = []` binds ONE new list to both places, so whatever is appended
     through one is seen through the other.  Flagged when a freshly built mutable container is the value of an assignment with two
-    or more targets of which at least one is a persistent place (subscript or attribute)."""
+    or more targets that are persistent places (subscripts or attributes); a local name next to ONE place (`sec = g[k] = []`) is
+    just an alias of that place."""
     n = 0
     bad = False
     for rel, m in sorted(ctx.repo.modules.items()):
@@ -622,7 +623,7 @@ def no_aliased_containers(ctx, rule, prefixes, floor, why):
             if not isinstance(node, ast.Assign):
                 continue
             n += 1
-            if len(node.targets) >= 2 and builds_mutable(node.value) and any(not isinstance(t, ast.Name) for t in node.targets):
+            if builds_mutable(node.value) and sum(1 for t in node.targets if not isinstance(t, ast.Name)) >= 2:
                 bad = True
                 fn = enclosing_func(m, node)
                 q = '%s::%s' % (rel, next((k for k, f in m.funcs.items() if f is fn), ''))
